@@ -133,8 +133,7 @@ theorem handleRequest_statics {O : Oracle} {c : Conf} {s : State} {mac : Bytes} 
       unfold commitLease
       exact renameLease_statics _ _ h hl hd
 
-theorem handleDecline_statics {c : Conf} {s : State} {mac : Bytes} {rp : Bool} {rip ci : Nat} (h : Inv c s)
-    (hlen : mac.length = 6) : statics (handleDecline c mac rp rip ci s).1 = statics s := by
+theorem handleDecline_statics {c : Conf} {s : State} {mac : Bytes} {rp : Bool} {rip ci : Nat} (h : Inv c s) : statics (handleDecline c mac rp rip ci s).1 = statics s := by
   unfold handleDecline
   simp only []
   cases hf : s.leases.find? (fun l => l.mac == mac && l.ip == msgIP rp rip ci) with
@@ -158,7 +157,7 @@ theorem handleDecline_statics {c : Conf} {s : State} {mac : Bytes} {rp : Bool} {
         intro y hy
         have := hclean (by unfold rmDynamicLease at hr; rw [hr]) y (by unfold rmDynamicLease at hr; rw [hr]; exact hy)
         rw [← hold]; exact this.1
-      have hsp := allocate_spec hi1 hlen hm1
+      have hsp := allocate_spec hi1 hm1
       have hst2 := allocate_statics (mac := mac) hi1
       rcases hal : allocateLease c mac s1 with ⟨s2, r⟩
       rw [hal] at hsp hst2
@@ -210,7 +209,7 @@ def Op.isDHCP : Op → Bool
   | .discover .. | .request .. | .decline .. | .release .. | .sleep .. => true
   | _ => false
 
-theorem step_statics {O : Oracle} {c : Conf} {s : State} {op : Op} (h : Inv c s) (hw : op.wf)
+theorem step_statics {O : Oracle} {c : Conf} {s : State} {op : Op} (h : Inv c s)
     (hd : op.isDHCP = true) : statics (step O c s op).1 = statics s := by
   have h0 : Inv c { s with stale := [] } := Inv_congr h rfl rfl rfl rfl rfl rfl
   unfold step
@@ -230,7 +229,7 @@ theorem step_statics {O : Oracle} {c : Conf} {s : State} {op : Op} (h : Inv c s)
     simp only []
     split
     · rfl
-    · exact handleDecline_statics h0 hw
+    · exact handleDecline_statics h0
   | release mac rp rip ci =>
     simp only []
     split
@@ -249,20 +248,20 @@ theorem obs_reservationsOf (c : Conf) (s : State) :
   rw [List.filter_map]
   rfl
 
-theorem obs_reservationsKept {O : Oracle} {c : Conf} {s : State} {op : Op} (h : Inv c s) (hw : op.wf) :
+theorem obs_reservationsKept {O : Oracle} {c : Conf} {s : State} {op : Op} (h : Inv c s) :
     reservationsKept (obsOf c s) op (obsOf c (step O c s op).1) = true := by
   unfold reservationsKept
   cases op with
   | discover mac =>
-    simp only [obs_reservationsOf, step_statics (O := O) h hw (op := .discover mac) rfl, beq_self_eq_true]
+    simp only [obs_reservationsOf, step_statics (O := O) h (op := .discover mac) rfl, beq_self_eq_true]
   | request mac sid rp rip ci hn =>
-    simp only [obs_reservationsOf, step_statics (O := O) h hw (op := .request mac sid rp rip ci hn) rfl, beq_self_eq_true]
+    simp only [obs_reservationsOf, step_statics (O := O) h (op := .request mac sid rp rip ci hn) rfl, beq_self_eq_true]
   | decline mac rp rip ci =>
-    simp only [obs_reservationsOf, step_statics (O := O) h hw (op := .decline mac rp rip ci) rfl, beq_self_eq_true]
+    simp only [obs_reservationsOf, step_statics (O := O) h (op := .decline mac rp rip ci) rfl, beq_self_eq_true]
   | release mac rp rip ci =>
-    simp only [obs_reservationsOf, step_statics (O := O) h hw (op := .release mac rp rip ci) rfl, beq_self_eq_true]
+    simp only [obs_reservationsOf, step_statics (O := O) h (op := .release mac rp rip ci) rfl, beq_self_eq_true]
   | sleep d =>
-    simp only [obs_reservationsOf, step_statics (O := O) h hw (op := .sleep d) rfl, beq_self_eq_true]
+    simp only [obs_reservationsOf, step_statics (O := O) h (op := .sleep d) rfl, beq_self_eq_true]
   | addStatic => rfl
   | updStatic => rfl
   | rmStatic => rfl
